@@ -1,0 +1,196 @@
+//go:build verif
+
+/*
+ * SPDX-License-Identifier: Apache-2.0
+ */
+
+package badger
+
+// Control API of the "disk" verification family (build tag "verif"): thin wrappers around
+// the production MANIFEST code (helpOpenOrCreateManifestFile, addChanges,
+// ReplayManifestFile) and around the production log writers (logFile.writeEntry,
+// valueLog.write) so that an external harness can build real MANIFEST / WAL / value-log
+// files record by record. No production logic is duplicated here.
+
+import (
+	"os"
+	"strconv"
+
+	"github.com/dgraph-io/badger/v4/options"
+	"github.com/dgraph-io/badger/v4/pb"
+	"github.com/dgraph-io/badger/v4/y"
+)
+
+// VerifDiskChange is one MANIFEST change.
+type VerifDiskChange struct {
+	Create bool   `json:"create"`
+	ID     uint64 `json:"id"`
+	Level  int    `json:"level"`
+	KeyID  uint64 `json:"keyId"`
+	Comp   int    `json:"comp"`
+}
+
+// VerifDiskTableManifest is the projection of a TableManifest.
+type VerifDiskTableManifest struct {
+	Level int    `json:"level"`
+	KeyID uint64 `json:"keyId"`
+	Comp  int    `json:"comp"`
+}
+
+// VerifDiskManifestState is the projection of a Manifest.
+type VerifDiskManifestState struct {
+	Tables    map[uint64]VerifDiskTableManifest `json:"tables"`
+	Levels    map[uint64]int                    `json:"levels"` // table id -> level according to Manifest.Levels
+	Creations int                               `json:"creations"`
+	Deletions int                               `json:"deletions"`
+}
+
+func verifDiskProjectManifest(m *Manifest) VerifDiskManifestState {
+	s := VerifDiskManifestState{Tables: map[uint64]VerifDiskTableManifest{}, Levels: map[uint64]int{},
+		Creations: m.Creations, Deletions: m.Deletions}
+	for id, tm := range m.Tables {
+		s.Tables[id] = VerifDiskTableManifest{Level: int(tm.Level), KeyID: tm.KeyID, Comp: int(tm.Compression)}
+	}
+	for l, lm := range m.Levels {
+		for id := range lm.Tables {
+			s.Levels[id] = l
+		}
+	}
+	return s
+}
+
+// VerifDiskManifest wraps a production manifestFile opened with a caller-chosen rewrite
+// threshold (the production constructor takes the threshold as a parameter).
+type VerifDiskManifest struct {
+	mf  *manifestFile
+	opt Options
+}
+
+// VerifDiskOpenManifest opens or creates dir/MANIFEST with helpOpenOrCreateManifestFile.
+func VerifDiskOpenManifest(dir string, deletionsThreshold int) (*VerifDiskManifest, VerifDiskManifestState, error) {
+	opt := DefaultOptions(dir)
+	opt.Logger = nil
+	mf, m, err := helpOpenOrCreateManifestFile(dir, false, 0, deletionsThreshold, opt)
+	if err != nil {
+		return nil, VerifDiskManifestState{}, err
+	}
+	return &VerifDiskManifest{mf: mf, opt: opt}, verifDiskProjectManifest(&m), nil
+}
+
+// AddChanges calls manifestFile.addChanges with one change set.
+func (v *VerifDiskManifest) AddChanges(cs []VerifDiskChange) error {
+	var changes []*pb.ManifestChange
+	for _, c := range cs {
+		if c.Create {
+			changes = append(changes, newCreateChange(c.ID, c.Level, c.KeyID, options.CompressionType(c.Comp)))
+		} else {
+			changes = append(changes, newDeleteChange(c.ID))
+		}
+	}
+	return v.mf.addChanges(changes, v.opt)
+}
+
+// Live returns the projection of the in-memory copy kept by the manifestFile.
+func (v *VerifDiskManifest) Live() VerifDiskManifestState {
+	v.mf.appendLock.Lock()
+	defer v.mf.appendLock.Unlock()
+	return verifDiskProjectManifest(&v.mf.manifest)
+}
+
+// Close closes the underlying file.
+func (v *VerifDiskManifest) Close() error { return v.mf.close() }
+
+// VerifDiskReplayManifest runs ReplayManifestFile on path.
+func VerifDiskReplayManifest(path string) (VerifDiskManifestState, int64, error) {
+	fp, err := os.Open(path)
+	if err != nil {
+		return VerifDiskManifestState{}, 0, err
+	}
+	defer fp.Close()
+	opt := DefaultOptions("")
+	opt.Logger = nil
+	m, off, err := ReplayManifestFile(fp, 0, opt)
+	if err != nil {
+		return VerifDiskManifestState{}, 0, err
+	}
+	return verifDiskProjectManifest(&m), off, nil
+}
+
+// VerifDiskIsBadChecksum reports whether err is the MANIFEST checksum error.
+func VerifDiskIsBadChecksum(err error) bool { return err == errBadChecksum }
+
+// VerifDiskLogRec describes one log record to be written with the production encoder.
+// Kind: "ent" (entry carrying bitTxn), "fin" (transaction end marker), "plain" (no
+// transaction bits, as written by value-log GC write-back).
+type VerifDiskLogRec struct {
+	Kind  string `json:"kind"`
+	Key   []byte `json:"key"`
+	Ts    uint64 `json:"ts"`
+	Value []byte `json:"value"`
+	// outputs
+	Start uint32 `json:"start"`
+	End   uint32 `json:"end"`
+	Fid   uint32 `json:"fid"`
+}
+
+func verifDiskRecEntry(r VerifDiskLogRec) *Entry {
+	switch r.Kind {
+	case "fin":
+		return &Entry{Key: y.KeyWithTs(txnKey, r.Ts), Value: []byte(strconv.FormatUint(r.Ts, 10)), meta: bitFinTxn}
+	case "ent":
+		return &Entry{Key: y.KeyWithTs(r.Key, r.Ts), Value: r.Value, meta: bitTxn}
+	default:
+		return &Entry{Key: y.KeyWithTs(r.Key, r.Ts), Value: r.Value}
+	}
+}
+
+// VerifDiskAppendWAL appends the records to the WAL of the active memtable with
+// logFile.writeEntry (the skiplist is not touched, so the records only exist in the file,
+// as after a crash). It fills Start/End of every record.
+func (db *DB) VerifDiskAppendWAL(recs []VerifDiskLogRec) (string, error) {
+	db.lock.Lock()
+	defer db.lock.Unlock()
+	mt := db.mt
+	for i := range recs {
+		recs[i].Start = mt.wal.writeAt
+		if err := mt.wal.writeEntry(mt.buf, verifDiskRecEntry(recs[i]), mt.opt); err != nil {
+			return "", err
+		}
+		recs[i].End = mt.wal.writeAt
+		recs[i].Fid = mt.wal.fid
+	}
+	return mt.wal.path, nil
+}
+
+// VerifDiskAppendVlog writes the records as one request through valueLog.write (values below
+// the value threshold are skipped by the production code: Start = End = 0 for them).
+func (db *DB) VerifDiskAppendVlog(recs []VerifDiskLogRec) (string, error) {
+	req := &request{}
+	for _, r := range recs {
+		req.Entries = append(req.Entries, verifDiskRecEntry(r))
+	}
+	if err := db.vlog.write([]*request{req}); err != nil {
+		return "", err
+	}
+	for i := range recs {
+		p := req.Ptrs[i]
+		recs[i].Fid, recs[i].Start, recs[i].End = p.Fid, p.Offset, p.Offset+p.Len
+	}
+	return db.vlog.fpath(db.vlog.maxFid), nil
+}
+
+// VerifDiskVlogPath returns the path of value-log file fid.
+func (db *DB) VerifDiskVlogPath(fid uint32) string { return db.vlog.fpath(fid) }
+
+// VerifDiskWALPath returns the path of the active memtable's WAL.
+func (db *DB) VerifDiskWALPath() string {
+	db.lock.RLock()
+	defer db.lock.RUnlock()
+	if db.mt == nil || db.mt.wal == nil {
+		return ""
+	}
+	return db.mt.wal.path
+}
+
+// VerifDiskLogHeaderSize is the size of the key-id/IV header of .mem and .vlog files.
+const VerifDiskLogHeaderSize = vlogHeaderSize
